@@ -12,7 +12,9 @@ Inductive yobs :=
 
 Inductive c02case :=
 | KGet (kind : gkind) (target : N) (salt : option bytes) (valid : list (bytes * bytes * bytes)) (resps : list lresp)
-       (got : list yobs) (joined : bool) (got_joiner : list yobs) (auth : list bool).
+       (got : list yobs) (joined : bool) (got_joiner : list yobs) (auth : list bool)
+       (* the salt the second caller asks for when it is not the first caller's (then it is another lookup's business) *)
+       (jsalt : option (option bytes)).
 
 Definition table_verify (valid : list (bytes * bytes * bytes)) (k msg sig : bytes) : bool :=
   existsb (fun e => let '(k', m', s') := e in bytes_eqb k k' && bytes_eqb msg m' && bytes_eqb sig s') valid.
@@ -41,12 +43,23 @@ Definition yield_matches (y : lyield) (o : yobs) : bool :=
 
 Definition check02 (c : c02case) : list N :=
   match c with
-  | KGet kind target salt valid resps got joined got_joiner auth =>
+  | KGet kind target salt valid resps got joined got_joiner auth jsalt =>
       let tg := N_to_be 20 target in
       let expected := received (table_verify valid) kind tg salt resps in
-      (if list_eqb yield_matches expected got && (if joined then list_eqb yield_matches expected got_joiner else true) then [] else [1]) ++
+      (* known class F28: no salt and the empty salt give one target but different signed bytes; lookups are keyed by
+         target, so a caller asking for the one while a lookup for the other runs is handed that lookup's items *)
+      let empty_vs_none := match salt, jsalt with
+                           | None, Some (Some []) | Some [], Some None => true
+                           | _, _ => false
+                           end in
+      let auth_first := firstn (length got) auth in
+      let auth_joiner := skipn (length got) auth in
+      (if list_eqb yield_matches expected got
+          && (if joined || empty_vs_none then list_eqb yield_matches expected got_joiner else true) then [] else [1]) ++
       (* every item that reached a caller passes the harness' own verification *)
-      (if forallb (fun b => b) auth && (length auth =? length got + length got_joiner)%nat then [] else [2])
+      (if (length auth =? length got + length got_joiner)%nat && forallb (fun b => b) auth_first
+          && (empty_vs_none || forallb (fun b => b) auth_joiner) then [] else [2]) ++
+      (if empty_vs_none && negb (forallb (fun b => b) auth_joiner) then [128] else [])
   end.
 
 Fixpoint run02 (k : N) (cs : list c02case) : list (N * N) :=
